@@ -105,7 +105,8 @@ def random_graph(rng, size, with_random):
                     g.add(node, g.types[a - 1]["el"][i])
             elif kind == "named":
                 ds = [rng.randint(1, len(g.nodes)) for _ in range(2)]
-                g.add(nd("CreateNamedTuple", ds, nm=["p", "q"]), named(["p", "q"], [g.types[d - 1] for d in ds]))
+                nm = rng.choice([["p", "q"], ["q", "p"], ["second", "first"]])     # declaration order need not be name order
+                g.add(nd("CreateNamedTuple", ds, nm=nm), named(nm, [g.types[d - 1] for d in ds]))
             elif kind == "nget":
                 ts = [i + 1 for i, x in enumerate(g.types) if x["k"] == "n"]
                 if ts:
@@ -197,6 +198,8 @@ def patterns():
     ps.append(("equal_bytes_scalar_array", prog([inp(U), const(U, [7]), const(A("u8", [1]), [7]), nd("Add", [1, 2]), nd("Add", [4, 3])])))
     ps.append(("tuple_get", prog([inp(B), inp(BA), nd("CreateTuple", [1, 2]), nd("TupleGet", [3], i=1), nd("Multiply", [4, 1])])))
     ps.append(("tuple_get_annotated", prog([inp(B), inp(BA), nd("CreateTuple", [1, 2]), dict(nd("TupleGet", [3], i=0), sends=[[0, 1]]), nd("Multiply", [4, 2])])))
+    ps.append(("named_positional_get", prog([inp(B), inp(U), nd("CreateNamedTuple", [1, 2], nm=["second", "first"]), nd("TupleGet", [3], i=0), nd("Add", [4, 1])])))
+    ps.append(("named_positional_get_same_types", prog([inp(U), inp(U), nd("CreateNamedTuple", [1, 2], nm=["zz", "aa"]), nd("TupleGet", [3], i=1), nd("TupleGet", [3], i=0), nd("Subtract", [4, 5])])))
     ps.append(("named_get", prog([inp(B), inp(U), nd("CreateNamedTuple", [1, 2], nm=["p", "q"]), nd("NamedTupleGet", [3], key="q"), nd("Add", [4, 2])])))
     for ix in ([1], [2, 1], [0, 0]):
         ps.append(("stacked_rows_get_%s" % "_".join(map(str, ix)),
